@@ -196,24 +196,24 @@ def run(chk):
         calls = [c for c in walk_no_nested(f.node) if isinstance(c, ast.Call) and call_name(c) == "self." + fetch.name]
         r2.expect(len(calls) == 1, "Client.%s reads through %s" % (m, fetch.name), "Client.%s:not-through-fetch" % m, "Client.%s does not go through the fetch exchange" % m, fn=f)
 
-    # ---- PooledClient
+    # ---- PooledClient: the value returned when the delegate call fails and ignore_exc is set
+    from . import pooled as pooled_an
+
+    pruns = pooled_an.analyse(prog)
     pooled = prog.cls("PooledClient")
     for m in READS:
         cf, t, kind = shapes[m]
         pf = prog.method(pooled, m, required=False)
-        if pf is None:
+        if pf is None or m not in pruns:
             r2.fail("PooledClient.%s:missing" % m, "PooledClient does not offer %s" % m, file=pooled.module.rel, line=pooled.node.lineno)
             continue
         want = subst_defaults(t, cf, pf)
-        vals = []
-        for h in [n for n in walk_no_nested(pf.node) if isinstance(n, ast.ExceptHandler)]:
-            for r in ast.walk(h):
-                if isinstance(r, ast.Return):
-                    vals.append((r, term(r.value, pf, local_defs(pf)) if r.value is not None else ("const", "None")))
-        if not vals:
-            r2.fail("PooledClient.%s:no-swallow" % m, "PooledClient.%s has no handler returning a miss value under ignore_exc" % m, fn=pf)
-        for r, got in vals:
-            r2.expect(got == want, "PooledClient.%s: failure value %s == miss value" % (m, show(got)), "PooledClient.%s:failure-shape" % m, "with ignore_exc PooledClient.%s returns %s on a failure but %s on a miss" % (m, show(got), show(want)), fn=pf, node=r)
+        fails = [r for r in pruns[m] if r.ignore_exc and r.outcome == "raise" and r.kind == "ret"]
+        if not fails:
+            r2.fail("PooledClient.%s:no-swallow" % m, "PooledClient.%s has no path that returns a miss value when the delegate call fails under ignore_exc" % m, fn=pf)
+        for r in fails:
+            got = pooled_an.value_term(r.value)
+            r2.expect(got == want, "PooledClient.%s: failure value %s == miss value" % (m, show(got)), "PooledClient.%s:failure-shape" % m, "with ignore_exc PooledClient.%s returns %s on a failure but %s on a miss" % (m, show(got), show(want)), fn=pf, witness=fmt_trace(r.trace))
 
     # ---- HashClient: default_val of _run_cmd / _safely_run_func
     hashc = prog.cls("HashClient")
@@ -278,17 +278,15 @@ def run(chk):
     n_cov = 0
     for m in READS:
         pf = prog.method(pooled, m, required=False)
-        if pf is None:
+        if pf is None or m not in pruns:
             continue
-        cvars = tuple(sorted({it.optional_vars.id for w in walk_no_nested(pf.node) if isinstance(w, ast.With) for it in w.items if isinstance(it.optional_vars, ast.Name)}))
-        dom = SwallowDomain(prog, pf, True, only_receiver=cvars)
-        outs = Interp(dom, pf.node, prog).run(Env())
-        bad = [(exc, t) for s, exc, t in outs.of("exc") if exc.colour == ORD]
         n_cov += 1
-        if not dom.n_failing:
-            raise AnalysisError("C07.R3: no call on the pooled client found in PooledClient.%s (bracket variable %s)" % (m, cvars))
+        rr = [r for r in pruns[m] if r.ignore_exc and r.outcome == "raise"]
+        if not any(r.state.get("calls", ()) for r in rr):
+            raise AnalysisError("C07.R3: no call on the pooled client found in PooledClient.%s" % m)
+        bad = [r for r in rr if r.kind == "exc"]
         if bad:
-            r3.fail("PooledClient.%s:uncovered" % m, "with ignore_exc a failure of the pooled client's call escapes PooledClient.%s" % m, fn=pf, line=bad[0][0].origin, witness=fmt_trace(bad[0][1]))
+            r3.fail("PooledClient.%s:uncovered" % m, "with ignore_exc a failure of the pooled client's call escapes PooledClient.%s" % m, fn=pf, line=bad[0].value.origin, witness=fmt_trace(bad[0].trace))
         else:
             r3.ok("PooledClient.%s: the delegate call is covered" % m, sample=False)
     # HashClient: _safely_run_func with ignore_exc: func() failures do not escape
